@@ -41,9 +41,9 @@ def _fresh(prefix="x"):
     return f"{prefix}{_cnt[0]}"
 
 
-# "litzero" / "litother": the same classes with other literal *values* (False / 0, and 1 / 7) — the outcome must not
+# "litzero" / "litother": the same classes with other literal *values* (False / 0, 1 / True, and 2) — the outcome must not
 # depend on the value a literal happens to have (a value-dependent shortcut such as `x | False -> False` would)
-PROVENANCES = ["direct", "opresult", "ntuple", "object", "fnparam", "litzero", "litother"]
+PROVENANCES = ["direct", "opresult", "ntuple", "object", "fnparam", "litzero", "litother", "littwo"]
 
 
 def _direct(sty, party, salt=3):
@@ -58,12 +58,12 @@ def build(sty, prov, party):
     cls = CLASSES[sty]
     if prov == "direct":
         return _direct(sty, party)
-    if prov in ("litzero", "litother"):
+    if prov in ("litzero", "litother", "littwo"):
         if sty[0] != "const":
             return _direct(sty, party)
         if sty[1] == "bool":
-            return cls(prov == "litother")
-        return cls(0 if prov == "litzero" else 1)
+            return cls(prov != "litzero")
+        return cls({"litzero": 0, "litother": 1, "littwo": 2}[prov])
     if prov == "opresult":
         a, b = _direct(sty, party, 5), _direct(sty, party, 2)
         if sty[1] == "bool":
